@@ -293,6 +293,19 @@ theorem Expected.unique {g : Graph} {cnt : Nat → Nat} {n : Nat} {o o' : Option
   | _, (none, none), _, h => exact h.elim
   | _, (some _, some _), _, h => exact h.elim
 
+/-- the specification looks at the link counts pointwise -/
+theorem Expected.congr {g : Graph} {cnt cnt' : Nat → Nat} {n : Nat} {o : Option Nat × Option Errno}
+    (h : Expected g cnt n o) (hc : ∀ t, cnt t = cnt' t) : Expected g cnt' n o := by
+  have : cnt = cnt' := funext hc
+  subst this; exact h
+
+/-- the link counts `resolve_links_exact` names do not depend on the choice of the function `tgt`: the end of a
+chain is unique, so any two admissible choices count the same links -/
+theorem countP_ends_unique {g : Graph} {pre : List Nat} {tgt tgt' : Nat → Nat}
+    (h : ∀ m ∈ pre, EndsAt g m (tgt m)) (h' : ∀ m ∈ pre, EndsAt g m (tgt' m)) (t : Nat) :
+    pre.countP (fun m => tgt m = t) = pre.countP (fun m => tgt' m = t) :=
+  List.countP_congr (fun x hx => by rw [(h x hx).unique (h' x hx)])
+
 /-- one call of the repaired `resolve_link`, judged against the specification -/
 theorem resolveLink_sound (g : Graph) (hwf : WF g) (links0 : List Nat) (st : St) (n : Nat) (hn : n < g.length)
     (hc : Cons g links0 st.resolved) (fuel : Nat) (hf : links0.length + 2 ≤ fuel) :
@@ -353,8 +366,9 @@ theorem resolveAll_sound (g : Graph) (hwf : WF g) (links0 : List Nat) (fuel : Na
       match resolveAllWith g (fun res n => loopFix g res n links0.length fuel n 0) st rest with
       | .ok st' => Cons g links0 st'.resolved ∧ (∀ k, (st.resolved k).isSome → (st'.resolved k).isSome) ∧
           ∀ n ∈ rest, (st'.resolved n).isSome
-      | .err n e => ∃ pre post cnt, rest = pre ++ n :: post ∧
-          (∀ m ∈ pre, ∃ t, EndsAt g m t ∧ g[t]? = some .other) ∧ Expected g cnt n (none, some e)
+      | .err n e => ∃ (pre post : List Nat) (tgt : Nat → Nat), rest = pre ++ n :: post ∧
+          (∀ m ∈ pre, EndsAt g m (tgt m) ∧ g[tgt m]? = some .other) ∧
+          Expected g (fun t => st.linkCount t + pre.countP (fun m => tgt m = t)) n (none, some e)
       | .outOfFuel => False
       | .badIndex => False := by
   intro rest
@@ -369,10 +383,10 @@ theorem resolveAll_sound (g : Graph) (hwf : WF g) (links0 : List Nat) (fuel : Na
     | badIndex => rw [hfin] at h1; exact h1
     | err e =>
       rw [hfin] at h1
-      exact ⟨[], rest, st.linkCount, rfl, by simp, h1⟩
+      exact ⟨[], rest, fun _ => 0, rfl, by simp, Expected.congr h1 (fun t => by simp)⟩
     | ok st1 =>
       rw [hfin] at h1
-      obtain ⟨t, hexp, hr, _⟩ := h1
+      obtain ⟨t, hexp, hr, hlc⟩ := h1
       have hc1 : Cons g links0 st1.resolved := by rw [hr]; exact hc.update hexp.1
       have h2 := ih st1 hc1 (fun m hm => hlt m (List.mem_cons_of_mem _ hm))
       simp only
@@ -381,12 +395,29 @@ theorem resolveAll_sound (g : Graph) (hwf : WF g) (links0 : List Nat) (fuel : Na
       | badIndex => rw [hrest] at h2; exact h2
       | err m e =>
         rw [hrest] at h2
-        obtain ⟨pre, post, cnt, hsplit, hpre, hex⟩ := h2
-        refine ⟨n :: pre, post, cnt, by simp [hsplit], ?_, hex⟩
-        intro x hx
-        rcases List.mem_cons.1 hx with rfl | hx
-        · exact ⟨t, hexp.1, hexp.2.1⟩
-        · exact hpre x hx
+        obtain ⟨pre, post, tgt, hsplit, hpre, hex⟩ := h2
+        -- the link just resolved ends at `t` (and so does every later occurrence of it on the list)
+        have htgt : ∀ x ∈ pre, (if x = n then t else tgt x) = tgt x := by
+          intro x hx
+          by_cases hxn : x = n
+          · subst hxn; simp only [if_true]; exact hexp.1.unique (hpre x hx).1
+          · simp only [hxn, if_false]
+        refine ⟨n :: pre, post, fun x => if x = n then t else tgt x, by simp [hsplit], ?_, Expected.congr hex ?_⟩
+        · intro x hx
+          rcases List.mem_cons.1 hx with rfl | hx
+          · simp only [if_true]; exact ⟨hexp.1, hexp.2.1⟩
+          · show EndsAt g x (if x = n then t else tgt x) ∧ g[if x = n then t else tgt x]? = some Node.other
+            rw [htgt x hx]; exact hpre x hx
+        · intro k
+          have hcp : List.countP (fun m => decide ((if m = n then t else tgt m) = k)) pre =
+              List.countP (fun m => decide (tgt m = k)) pre :=
+            List.countP_congr (fun x hx => by rw [htgt x hx])
+          rw [hlc, List.countP_cons, hcp]
+          simp only [if_true]
+          by_cases hk : k = t
+          · subst hk; simp only [if_true, decide_true]; omega
+          · have hk' : ¬ t = k := fun h => hk h.symm
+            simp only [hk, hk', if_false, decide_false]; simp
       | ok st' =>
         rw [hrest] at h2
         obtain ⟨hc', hmono, hall⟩ := h2
